@@ -4,6 +4,7 @@ import (
 	"fmt"
 	"math/rand"
 	"sort"
+	"sync"
 
 	"github.com/evolbioinfo/gotree/tree"
 	"github.com/fredericlemoine/gostats"
@@ -130,7 +131,9 @@ func c16Indexes(t *tree.Tree, obs *Sexp) {
 	}
 	bits := L()
 	lens := []int{}
+	ntips := L()
 	for _, e := range t.Edges() {
+		ntips.List = append(ntips.List, L(I(e.NumTipsRight()), I(e.NumTipsLeft())))
 		bs := e.Bitset()
 		if bs == nil {
 			bits.List = append(bits.List, L(B(false), L()))
@@ -146,7 +149,98 @@ func c16Indexes(t *tree.Tree, obs *Sexp) {
 		}
 		bits.List = append(bits.List, L(B(true), Ints(set)))
 	}
-	obs.List = append(obs.List, KV("tipindex", Strs(names)), KV("tipidx", tidx), KV("bits", bits), KV("bitlens", Ints(lens)))
+	obs.List = append(obs.List, KV("tipindex", Strs(names)), KV("tipidx", tidx), KV("bits", bits), KV("bitlens", Ints(lens)), KV("ntips", ntips))
+}
+
+// c16Concurrent: k goroutines generate trees at the same time (each `per` trees of n tips).  The
+// process-wide rand source is shared, so the exact trees are unpredictable: they are only judged
+// on well-formedness, tips and names.  Panics are recovered per goroutine and reported.
+func c16Concurrent(c *Sexp) *Sexp {
+	which := c.Str("which")
+	n := c.Int("n")
+	rooted := c.Bool("rooted")
+	k := c.Int("k")
+	per := c.Int("per")
+	type res struct {
+		t     *tree.Tree
+		err   error
+		panic string
+	}
+	out := make([][]res, k)
+	var wg sync.WaitGroup
+	start := make(chan struct{})
+	for g := 0; g < k; g++ {
+		wg.Add(1)
+		go func(g int) {
+			defer wg.Done()
+			<-start
+			for j := 0; j < per; j++ {
+				func() {
+					r := res{}
+					defer func() {
+						if x := recover(); x != nil {
+							r.panic = fmt.Sprintf("%v", x)
+							if r.panic == "" {
+								r.panic = "panic"
+							}
+						}
+						out[g] = append(out[g], r)
+					}()
+					switch which {
+					case "uniform":
+						r.t, r.err = tree.RandomUniformBinaryTree(n, rooted)
+					case "yule":
+						r.t, r.err = tree.RandomYuleBinaryTree(n, rooted)
+					case "caterpillar":
+						r.t, r.err = tree.RandomCaterpillarBinaryTree(n, rooted)
+					case "balanced":
+						r.t, r.err = tree.RandomBalancedBinaryTree(n, rooted)
+					case "star":
+						r.t, r.err = tree.StarTree(n)
+					case "topologies":
+						var ts []*tree.Tree
+						ts, r.err = tree.AllTopologies(n, rooted)
+						if len(ts) > 0 {
+							r.t = ts[len(ts)-1]
+						}
+					}
+				}()
+			}
+		}(g)
+	}
+	close(start)
+	wg.Wait()
+	trees := L()
+	panics := []string{}
+	errs := []string{}
+	problems := []string{}
+	for g := 0; g < k; g++ {
+		for _, r := range out[g] {
+			if r.panic != "" {
+				panics = append(panics, r.panic)
+				continue
+			}
+			if r.err != nil || r.t == nil {
+				errs = append(errs, errStr(r.err))
+				continue
+			}
+			func() {
+				defer func() {
+					if x := recover(); x != nil {
+						problems = append(problems, fmt.Sprintf("panic while dumping: %v", x))
+					}
+				}()
+				d, audit := ObserveTree(r.t)
+				trees.List = append(trees.List, d)
+				for _, p := range audit.List {
+					if len(problems) < 5 {
+						problems = append(problems, p.Atom)
+					}
+				}
+			}()
+		}
+	}
+	return L(KV("trees", trees), KV("audits", Strs(problems)), KV("panics", Strs(panics)), KV("errs", Strs(errs)))
 }
 
 func c16(c *Sexp) *Sexp {
@@ -156,6 +250,9 @@ func c16(c *Sexp) *Sexp {
 	obs := L()
 	if gen == "randlib" {
 		return c16RandLib(c)
+	}
+	if gen == "concurrent" {
+		return c16Concurrent(c)
 	}
 	if gen == "topologies" {
 		var trees []*tree.Tree
